@@ -1022,9 +1022,14 @@ def search_identity(ctx: Ctx, real_descs: list[dict[str, Any]], gen_descs: list[
 		table_bad, stats = [(f'wf:class-table-raises:{canon_exc(e)}', f'reading the class table raised {canon_exc(e)}')], {'classes': 0}
 	res.cases += stats['classes']
 	hist['node classes checked'] = stats['classes']
+	hist_bad = [x for x in table_bad if x[0].startswith('prop-keys-history')]
+	if hist_bad:
+		res.findings.append(Finding(key=hist_bad[0][0], what=f'{hist_bad[0][1]} ({len(hist_bad)} classes affected)', replay={'class_table': [w for _, w in hist_bad][:80]}))
 	for key, what in table_bad:
 		hist[key] += 1
-		if 'raises' in key or 'annotation-missing' in key or key.startswith('prop-keys-history'):
+		if key.startswith('prop-keys-history'):
+			continue
+		if 'raises' in key or 'annotation-missing' in key:
 			# procedure.py:209 / node.py:193 would raise for every node of that class: the run cannot succeed
 			res.findings.append(Finding(key=key, what=what, replay={'class_table': what}))
 		else:
@@ -1380,9 +1385,16 @@ def search_prop_keys_history(ctx: Ctx) -> SearchResult:
 		for k, v in out['hist'].items():
 			hist[k if not k.startswith('classes queried') else f'{k}'] += v
 		hist[f'order {mode}: ' + ('ok' if not out['findings'] else f"{len(out['findings'])} finding(s)")] += 1
-		for f in out['findings']:
-			f['replay'].update({'order_mode': mode, 'order_seed': seed})
-			res.findings.append(Finding(key=f['key'], what=f['what'], replay=f['replay']))
+		runs = [f for f in out['findings'] if not f['key'].startswith('prop-keys-')]
+		table = [f for f in out['findings'] if f['key'].startswith('prop-keys-')]
+		# a failing run (source + query order) first; the class-level disagreements of one order as a single finding
+		for f in runs[:2]:
+			f['replay'].update({'order_mode': mode, 'order_seed': seed, 'classes_with_wrong_prop_keys': [t['replay'].get('class') for t in table][:60]})
+			res.findings.append(Finding(key=f"{f['key']}@after-prop_keys-queries", what=f['what'], replay=f['replay']))
+		if table:
+			first = table[0]
+			first['replay'].update({'order_mode': mode, 'order_seed': seed, 'all_affected': [{k: t['replay'].get(k) for k in ('class', 'prop_keys', 'declared', 'bases_queried_earlier')} for t in table][:80]})
+			res.findings.append(Finding(key=first['key'], what=f"{first['what']} ({len(table)} classes affected in order {mode})", replay=first['replay']))
 		if len(res.samples) < 2:
 			res.samples.append({'order': mode, 'seed': seed, 'sources': [n for n, _ in sources][:4], 'hist': out['hist']})
 	res.distinct = len(modes)
@@ -1481,7 +1493,10 @@ def replay(ctx: Ctx, path: str) -> int:
 	inp = rec.get('input') or {}
 	if rec.get('kind') == 'failing-input' and inp.get('source'):
 		app = common.MemApp(ctx.tmpdir())
-		if inp.get('mode') == 'semantic':
+		if inp.get('mode') == 'prop-keys-history':
+			out = run_worker({'mode': inp['order_mode'], 'seed': inp['order_seed'], 'sources': [[inp['source_name'], inp['source']]], 'must_hold': {inp['source_name']: True}})
+			print('replay: fresh process, prop_keys() queried in the recorded order, then the identity oracle ->', json.dumps(out['findings'], default=str)[:1500])
+		elif inp.get('mode') == 'semantic':
 			from rogw.tranp.semantics.reflections import Reflections
 			ep = app.module(inp['source']).entrypoint
 			print('replay: identity + Reflections.type_of oracle on the recorded source ->', SemanticRun(app.resolve(Reflections), Counter()).check(ep))
